@@ -15,7 +15,7 @@ std::string polyStr(const Poly &p, size_t lim) {
   for (auto &kv : p) {
     if (n++ >= lim) { s << " + ...(" << p.size() << " terms)"; break; }
     s << (n > 1 ? " + " : "") << i128str(kv.second.n); if (kv.second.d != 1) s << "/" << i128str(kv.second.d);
-    for (auto &ve : kv.first) { s << "*" << TT.str(ve.first, 4); if (ve.second != 1) s << "^" << ve.second; }
+    for (auto &ve : kv.first) { s << "*" << TT.str(ve.first, 4); if (getenv("IRFLOW_DEBUG")) s << "{" << OPS.name(TT.t[ve.first].op) << ":" << TT.t[ve.first].bytes << "}"; if (ve.second != 1) s << "^" << ve.second; }
   }
   return s.str();
 }
@@ -74,7 +74,7 @@ bool Normaliser::zeroModDenominators(Poly p) {
   }
   return false;
 }
-Poly Normaliser::atom(int t) { atoms++; if (C) { int ct = C->canon(t); if (ct != t) { const Term &y = TT.t[ct]; if (y.op == TT.OP_C) { Poly p; if (y.k) p[Mono()] = Q((long long)y.k); return p; } if (y.op == TT.OP_ADD || y.op == TT.OP_SUB || y.op == TT.OP_MUL) return norm(ct, false); /* the canonical form became an integer ring expression: expand it */
+Poly Normaliser::atom(int t) { atoms++; if (C) { int ct = C->canon(t); if (ct != t) { const Term &y = TT.t[ct]; if (y.op == TT.OP_C) { Poly p; if (y.k) p[Mono()] = Q((long long)y.k); return p; } if (y.op == TT.OP_CF || y.op == TT.OP_RATC) return norm(ct, true); /* the canonical form is a constant (e.g. a select whose condition was decided) */ if (y.op == TT.OP_SYM) return norm(ct, TT.ns[y.a[0]].fp); if (y.op == TT.OP_ADD || y.op == TT.OP_SUB || y.op == TT.OP_MUL) return norm(ct, false); /* the canonical form became an integer ring expression: expand it */
   if (y.op == TT.OP_FNEG || y.op == TT.OP_FADD || y.op == TT.OP_FSUB || y.op == TT.OP_FMUL || y.op == TT.OP_FMA || y.op == TT.OP_FMULADD || y.op == TT.OP_FDIV) return norm(ct, true); /* e.g. a sign flip done with 64-bit integer instructions on a pair of floats: canonically fneg(...) */ t = ct; } } Poly p; p[Mono{{t, 1}}] = Q(1); return p; }
 
 static bool isSignMask(const Term &c, int bytes) { return c.op == TT.OP_C && ((bytes == 4 && (int32_t)c.k == INT32_MIN) || (bytes == 8 && c.k == INT64_MIN)); }
@@ -100,7 +100,12 @@ Poly Normaliser::norm(int t, bool fp) {
   const Term x = TT.t[t]; Poly r; const std::string op = OPS.name(x.op);
   auto A = [&](int i) { return norm(x.a[i], fp); };
   if (x.op == TT.OP_SYM) r[Mono{{t, 1}}] = Q(1);
-  else if (x.op == TT.OP_C) { if (fp) r = atom(t); else r = pconst(Q((long long)x.k)); }
+  else if (x.op == TT.OP_C) {
+    if (!fp) r = pconst(Q((long long)x.k));
+    else { // integer bytes read as a floating-point value (e.g. a zero-filled cell): the value those bits denote
+      double d; bool ok = true; if (x.bytes == 4) { uint32_t u = (uint32_t)x.k; float f; memcpy(&f, &u, 4); d = f; } else if (x.bytes == 8) { uint64_t u = (uint64_t)x.k; memcpy(&d, &u, 8); } else ok = false;
+      Q q; if (ok && dyadic(d, q)) r = pconst(q); else r = atom(t); }
+  }
   else if (x.op == TT.OP_CF) { Q q; if (dyadic(TT.cfval(t), q)) r = pconst(q); else r = atom(t); }
   else if (x.op == TT.OP_RATC) r = pconst(Q((__int128)x.k, (__int128)x.bytes));
   else if (x.op == TT.OP_CONCAT && x.bytes <= 8) { // a value assembled from constant pieces
@@ -220,6 +225,21 @@ int Normaliser::mulCount(int t, std::unordered_map<int, int> &m) {
 extern std::unordered_map<int, uint64_t> *g_symOverride;
 static bool isCmpAtomT(int t) { const std::string &o = OPS.name(TT.t[t].op); return o.compare(0, 5, "icmp.") == 0 || o.compare(0, 5, "fcmp.") == 0 || TT.t[t].op == TT.OP_NOT; }
 static bool commutative(int op) { return op == TT.OP_ADD || op == TT.OP_MUL || op == TT.OP_AND || op == TT.OP_OR || op == TT.OP_XOR || op == TT.OP_FADD || op == TT.OP_FMUL; }
+// sign of a floating-point term when it follows from declared facts: symbols of a region declared positive are finite and > 0,
+// constants have their sign, |x| of a non-zero x is > 0, products / quotients / negations combine.  2 = unknown.
+static int fpSign(int t, int depth = 0) {
+  if (depth > 6) return 2;
+  const Term &x = TT.t[t];
+  if (x.op == TT.OP_SYM) return (TT.ns[x.a[0]].fp && TT.ns[x.a[0]].positive) ? 1 : 2;
+  if (x.op == TT.OP_CF) { double v = TT.cfval(t); if (v != v) return 2; return v > 0 ? 1 : (v < 0 ? -1 : 0); }
+  if (x.op == TT.OP_FNEG) { int s = fpSign(x.a[0], depth + 1); return s == 2 ? 2 : -s; }
+  if (x.op == TT.OP_FABS) { int s = fpSign(x.a[0], depth + 1); return s == 2 ? 2 : (s == 0 ? 0 : 1); }
+  if (x.op == TT.OP_FMUL || x.op == TT.OP_FDIV) { int a = fpSign(x.a[0], depth + 1), b = fpSign(x.a[1], depth + 1); if (a == 2 || b == 2) return 2; if (x.op == TT.OP_FDIV && b == 0) return 2; return a * b; }
+  if (x.op == TT.OP_SQRT) { int s = fpSign(x.a[0], depth + 1); return (s == 1 || s == 0) ? s : 2; }
+  if (x.op == TT.OP_FADD) { int a = fpSign(x.a[0], depth + 1), b = fpSign(x.a[1], depth + 1); if (a == 2 || b == 2) return 2; if (a == 0) return b; if (b == 0) return a; return a == b ? a : 2; }
+  return 2;
+}
+
 int Canon::canon(int t) {
   auto it = memo.find(t);
   if (it != memo.end()) return it->second;
@@ -247,6 +267,7 @@ int Canon::canon(int t) {
   else if (x.op == TT.OP_FSUB && TT.t[x.a[0]].op == TT.OP_CF && TT.t[x.a[0]].k == INT64_MIN) r = canon(TT.mk(TT.OP_FNEG, {x.a[1]}, 0, x.bytes));
   else if (x.op == TT.OP_FABS && TT.t[x.a[0]].op == TT.OP_FMUL && TT.t[x.a[0]].a[0] == TT.t[x.a[0]].a[1]) r = x.a[0]; // |x*x| == x*x (LLVM performs the same fold)
   else if (x.op == TT.OP_FABS && (TT.t[x.a[0]].op == TT.OP_FABS || TT.t[x.a[0]].op == TT.OP_SQRT)) r = x.a[0];
+  else if (x.op == TT.OP_FABS && fpSign(x.a[0]) == 1) r = x.a[0]; // |x| of a term known to be positive
   else if (op.compare(0, 5, "libm.") == 0 && x.a.size() == 1 && (TT.t[x.a[0]].op == TT.OP_FNEG || TT.t[x.a[0]].op == TT.OP_FABS)) {
     // parity of the elementary functions (the compiler applies the same identities to the scalar reference)
     std::string f = op.substr(5); if (f.size() > 1 && f.back() == 'f' && f != "erf") f.pop_back();
@@ -390,6 +411,12 @@ int Canon::canon(int t) {
         if (TT.t[v].op != TT.OP_C && TT.t[u].op == TT.OP_C && TT.t[u].k < INT64_MAX) r = atomT("slt", v, TT.cint(TT.t[u].k + 1, TT.t[u].bytes), false); /* C >= v  <=>  v < C+1 */ else r = notT(atomT("slt", u, v, false)); }
       else if (p == "ult") r = atomT("ult", a0, a1, false); else if (p == "ugt") r = atomT("ult", a1, a0, false);
       else if (p == "uge") r = notT(atomT("ult", a0, a1, false)); else if (p == "ule") r = notT(atomT("ult", a1, a0, false));
+    } else if (fpSign(a0) != 2 && fpSign(a1) != 2 && (fpSign(a0) != fpSign(a1) || fpSign(a0) == 0)) {
+      // both operands have a known sign and the signs order them (finite, not NaN): the comparison is a constant
+      int su = fpSign(a0), sv = fpSign(a1); bool lt = su < sv, eq = su == sv, res;
+      if (p == "oeq" || p == "ueq") res = eq; else if (p == "one" || p == "une") res = !eq; else if (p == "olt" || p == "ult") res = lt; else if (p == "ole" || p == "ule") res = lt || eq;
+      else if (p == "ogt" || p == "ugt") res = !lt && !eq; else if (p == "oge" || p == "uge") res = !lt; else if (p == "ord") res = true; else res = false;
+      r = TT.cint(res ? 1 : 0, 1);
     } else {
       if (p == "oeq") r = atomT("oeq", a0, a1, true); else if (p == "une") r = notT(atomT("oeq", a0, a1, true));
       else if (p == "one") r = atomT("one", a0, a1, true); else if (p == "ueq") r = notT(atomT("one", a0, a1, true));
